@@ -244,8 +244,11 @@ func NewSweepStepper[K any](k *kinds.Kind[K], cfg *Config, res *ev.Result, name 
 	n := len(st.fam)
 	rng.Shuffle(r, st.fam)
 	targets := []int{5, 3, 17, 12, 20, 11, 49, 37, 52, 36, 13, 11, 4, 17, 49, n, 38, 36, 12, 3, 18, 50, 12, 2}
-	if r.Chance(1, 2) {
+	switch r.Intn(3) {
+	case 0:
 		targets = []int{17, 12, 17, 12, 49, 37, 49, 37, 13, 3, 5, 3, 17, 50, 36, 12, 3, 49, 12, 2}
+	case 1:
+		targets = []int{17, 48, 40, 48, 47, 48, 30, 48, 13, 30, 29, 30, 29, 30, 29, 30, 29, 30, 29, 30, 29, 30, 29, 30, 29, 30, 29, 30, 29, 30, 29, 30, 29, 30, 48, 49, 37, 12, 3, 2}
 	}
 	in := make([]bool, n)
 	var live []int
